@@ -27,7 +27,7 @@ EXPECTED_REACH = ['pre:output-already-identical', 'xval:sim-and-real-agree', 'ok
                   'opt:verbose', 'opt:compress', 'fail:natural'] + ['failpass:' + p for p in asmsim.PASSES if p not in ('resolve_labels', 'resolve_strings', 'resolve_blobs', 'lex_tokens', 'transform_shorthand_packs', 'resolve_register_aliases', 'resolve_include_bytes', 'resolve_aligns')]
 CHUNK = 100
 SENT = {'out': 'OLD-OUTPUT-SENTINEL\n', 'labels': 'old_label 0x00000bad\n', 'hex': ':00000001FF\n'}
-HEX_OK = ['0', '0x08000000', '134217728', '0o1000', '0xFFF0', '0xFFFE', '65535', '0x20000', '0b1000', '0x1FFFC']
+HEX_OK = ['0', '0x08000000', '134217728', '0o1000', '0xFFF0', '0xFFFE', '65535', '0x20000', '0b1000', '0x1FFFC', '+16', ' 32', '0x0', '0X10', '1_000']
 HEX_BAD = ['zz', '08', '0x', '1.5', 'ten', '0xg']
 HEX_OBS = ['0xFFFFFFF0', '-4', '0x100000000']
 
@@ -91,19 +91,21 @@ def base_scenario(r, want=None):
         out = posixpath.join(cwd, 'bb.out')
     else:
         o = r.choice(('out.bin', 'out/prog.bin', '/w/proj/out/abs.bin', '../w_up.bin' if cwd != '/w' else 'up.bin', './dot.bin'))
-        argv += [r.choice(('-o', '--output')), o]
+        if r.random() < 0.06:
+            argv += ['-o', 'overridden.bin']          # a repeated option: the last one wins
+        argv += [r.choice(('-o', '--output', '--out')), o]
         out = posixpath.normpath(posixpath.join(cwd, o))
     labels = None
     if r.random() < 0.6:
         l = r.choice(('labels.txt', '/w/proj/out/labels.abs', 'out/l.txt'))
-        argv += [r.choice(('-l', '--labels')), l]
+        argv += [r.choice(('-l', '--labels', '--lab')), l]
         labels = posixpath.normpath(posixpath.join(cwd, l))
     hk = r.random()
     hexpath = None
     if hk < 0.45:
         c = r.random()
         ho = r.choice(HEX_OK) if c < 0.7 else (r.choice(HEX_BAD) if c < 0.93 else r.choice(HEX_OBS))
-        argv += ['--hex-offset', ho] if r.random() < 0.7 else ['--hex-offset=' + ho]
+        argv += [r.choice(('--hex-offset', '--hex-offset', '--hex')), ho] if r.random() < 0.7 else ['--hex-offset=' + ho]
         opts['hex'] = ho
         hexpath = out + '.hex'
     inp = spell(main)
@@ -197,7 +199,7 @@ def make_scenario(spec, seed, idx):
             if skip:
                 skip = False
                 continue
-            if a == '--hex-offset':
+            if a in ('--hex-offset', '--hex'):
                 skip = True
                 continue
             if a.startswith('--hex-offset='):
